@@ -186,6 +186,12 @@ func (al *agentListener) serv(c *conn2) {
 				out:   out,
 			}
 
+			// an earlier connection with the same addresses (closed by its service, never ended by
+			// the agent) must not shadow the new one
+			if old := conns.Get(v.Laddr, v.Raddr); old != nil {
+				conns.Delete(old)
+			}
+
 			conns.Add(ac)
 
 			conn := event.WithConn(ac, event.Custom("agent", token))
